@@ -6,7 +6,7 @@
 //
 // Request lines of one case:
 //
-//	cfg kind=<k> q=<queue> b=<batch> t=<timeout ms> p=<producers> o=<objects> n=<ops/producer> fl=<flushes> stop=<k> hy=<permille> fin=<0|1> seed=<s>
+//	cfg kind=<k> q=<queue> b=<batch> t=<timeout ms> p=<producers> o=<objects> n=<ops/producer> fl=<flushes> stop=<k> hy=<permille> fin=<0|1> ns=<stop callers> seed=<s>
 //	ec p o | hk p | sn o | sd o | er p o | rs o | w o v | cm | d o | fl | tc t | tr t | bl p | bs t | st o v | sx o
 //	end
 //	model <witness>            (forced schedules only: the model's trace on the Lean witness schedule)
@@ -76,13 +76,13 @@ func init() {
 type cfg struct {
 	kind                       string
 	q, b, t, p, o, n, fl, stop int
-	hy, fin                    int
+	hy, fin, ns                int
 	seed                       uint64
 }
 
 func (c cfg) line() string {
-	return fmt.Sprintf("cfg kind=%s q=%d b=%d t=%d p=%d o=%d n=%d fl=%d stop=%d hy=%d fin=%d seed=%d",
-		c.kind, c.q, c.b, c.t, c.p, c.o, c.n, c.fl, c.stop, c.hy, c.fin, c.seed)
+	return fmt.Sprintf("cfg kind=%s q=%d b=%d t=%d p=%d o=%d n=%d fl=%d stop=%d hy=%d fin=%d ns=%d seed=%d",
+		c.kind, c.q, c.b, c.t, c.p, c.o, c.n, c.fl, c.stop, c.hy, c.fin, c.ns, c.seed)
 }
 
 func parseCfg(l string) (cfg, bool) {
@@ -121,6 +121,8 @@ func parseCfg(l string) (cfg, bool) {
 			c.hy = int(n)
 		case "fin":
 			c.fin = int(n)
+		case "ns":
+			c.ns = int(n)
 		case "seed":
 			c.seed = n
 		}
@@ -174,6 +176,7 @@ type obj struct {
 	id   int
 	flag bool // guarded by w.mu: the flag operation and its trace record are one atomic action
 	ver  atomic.Int64
+	gate chan struct{} // when set, BatchWrite blocks on it after it has been recorded
 }
 
 func key(id int) []byte { return []byte("o" + strconv.Itoa(id)) }
@@ -181,6 +184,9 @@ func key(id int) []byte { return []byte("o" + strconv.Itoa(id)) }
 func (o *obj) BatchWrite(m kvstore.BatchedMutations) {
 	v := int(o.ver.Load())
 	o.w.rec("w", o.id, v)
+	if o.gate != nil {
+		<-o.gate
+	}
 	if err := m.Set(key(o.id), []byte(strconv.Itoa(v))); err != nil {
 		panic(err)
 	}
@@ -283,6 +289,25 @@ func (w *world) stop(t int) {
 	w.rec("tc", t)
 	w.bw.StopBatchWriter()
 	w.rec("tr", t)
+}
+
+// waitEvent waits until an event with the given prefix has been recorded.
+func (w *world) waitEvent(prefix string, d time.Duration) {
+	deadline := time.Now().Add(d)
+	for time.Now().Before(deadline) {
+		w.mu.Lock()
+		seen := false
+		for _, e := range w.ev {
+			if strings.HasPrefix(e, prefix) {
+				seen = true
+			}
+		}
+		w.mu.Unlock()
+		if seen {
+			return
+		}
+		time.Sleep(50 * time.Microsecond)
+	}
 }
 
 // stopInvoked waits until the Stop call has been recorded and then long enough for it to clear `running`
@@ -453,6 +478,24 @@ func run(c cfg) []string {
 
 		return w.finish([]chan struct{}{p0, p1}, []chan struct{}{s0}, stressBound)
 
+	case "two-stops":
+		// the object's BatchWrite is held on a channel; Stop#0 is started and observed waiting, then Stop#1 is
+		// started: neither may return before the release
+		gate := make(chan struct{})
+		w.objs[0].gate = gate
+		p0 := w.spawn(0, func() { w.enqueue(0, w.objs[0]) })
+		waitFor(p0, stressBound)
+		w.waitEvent("w ", stressBound)
+		s0 := w.spawn(100, func() { w.stop(0) })
+		w.waitEvent("tc 0", stressBound)
+		waitFor(s0, time.Duration(c.t)*time.Millisecond+3*time.Millisecond)
+		s1 := w.spawn(101, func() { w.stop(1) })
+		w.waitEvent("tc 1", stressBound)
+		waitFor(s1, time.Duration(c.t)*time.Millisecond+3*time.Millisecond)
+		close(gate)
+
+		return w.finish([]chan struct{}{p0}, []chan struct{}{s0, s1}, stressBound)
+
 	default: // stress
 		rng := hx.NewRng(c.seed)
 		var prod, stoppers []chan struct{}
@@ -502,14 +545,31 @@ func run(c cfg) []string {
 				}
 			}))
 		}
-		stoppers = append(stoppers, w.spawn(100, func() {
-			<-start
-			dl := time.Now().Add(2 * time.Second)
-			for w.erets.Load() < int64(c.stop) && time.Now().Before(dl) {
-				runtime.Gosched()
-			}
-			w.stop(0)
-		}))
+		ns := c.ns
+		if ns < 1 {
+			ns = 1
+		}
+		for k := 0; k < ns; k++ {
+			k := k
+			sr, _ := rng.Fork()
+			stoppers = append(stoppers, w.spawn(100+k, func() {
+				<-start
+				dl := time.Now().Add(2 * time.Second)
+				for w.erets.Load() < int64(c.stop) && time.Now().Before(dl) {
+					runtime.Gosched()
+				}
+				if k > 0 {
+					// overlap the first caller: right away, after a yield, or a little later
+					switch sr.Intn(3) {
+					case 1:
+						runtime.Gosched()
+					case 2:
+						time.Sleep(time.Duration(sr.Intn(1+c.t*500)) * time.Microsecond)
+					}
+				}
+				w.stop(k)
+			}))
+		}
 		close(start)
 
 		return w.finish(prod, stoppers, stressBound)
@@ -553,10 +613,6 @@ func oracle(lines []string) (per []string, end string) {
 
 		return r
 	}
-	firstTc := len(ev)
-	if t := idx("tc", -1, len(ev)); len(t) > 0 {
-		firstTc = t[0]
-	}
 	per = make([]string, len(ev))
 	for i, e := range ev {
 		switch e.k {
@@ -579,21 +635,33 @@ func oracle(lines []string) (per []string, end string) {
 				per[i] = "write-unscheduled"
 			}
 		case "tr":
-			// every Enqueue that returned before Stop was first invoked: a BatchWrite that started
-			// after the Enqueue call has been committed and its Done delivered by now
-			for j := 0; j < firstTc && per[i] == ""; j++ {
+			// per Stop call: every accepted Enqueue (it reached the yield point, i.e. passed the running
+			// check) that returned before THIS call was invoked: a BatchWrite that started after the Enqueue
+			// call has been committed and its Done delivered by now
+			call := -1
+			for x := i - 1; x >= 0; x-- {
+				if ev[x].k == "tc" && ev[x].a == e.a {
+					call = x
+
+					break
+				}
+			}
+			for j := 0; j < call && per[i] == ""; j++ {
 				if ev[j].k != "er" {
 					continue
 				}
-				c := -1
+				c, passed := -1, false
 				for x := j - 1; x >= 0; x-- {
+					if ev[x].k == "hk" && ev[x].a == ev[j].a {
+						passed = true
+					}
 					if ev[x].k == "ec" && ev[x].a == ev[j].a {
 						c = x
 
 						break
 					}
 				}
-				if c < 0 {
+				if c < 0 || !passed {
 					continue
 				}
 				o := ev[j].b
@@ -703,7 +771,7 @@ func windowRace(lines []string) bool {
 // projections renders a trace per participant (the interleaving of the writer with the producers is not
 // determined by a forced schedule, the order within each participant is): producers, flag test-and-sets,
 // Stop, writer.
-func projections(lines []string, producers int) string {
+func projections(lines []string, producers, stoppers int) string {
 	var parts []string
 	for p := 0; p < producers; p++ {
 		var t []string
@@ -715,18 +783,21 @@ func projections(lines []string, producers int) string {
 		}
 		parts = append(parts, fmt.Sprintf("P%d:", p)+strings.Join(t, ","))
 	}
-	for _, grp := range []struct {
-		name  string
-		kinds string
-	}{{"F:", " sn sd "}, {"S:", " tc tr bs "}, {"W:", " rs w cm d "}} {
+	group := func(name string, keep func(e event) bool) {
 		var t []string
 		for _, l := range lines {
-			if strings.Contains(grp.kinds, " "+parseEv(l).k+" ") {
+			if keep(parseEv(l)) {
 				t = append(t, strings.ReplaceAll(l, " ", "."))
 			}
 		}
-		parts = append(parts, grp.name+strings.Join(t, ","))
+		parts = append(parts, name+strings.Join(t, ","))
 	}
+	group("F:", func(e event) bool { return e.k == "sn" || e.k == "sd" })
+	for k := 0; k < stoppers; k++ {
+		k := k
+		group(fmt.Sprintf("S%d:", k), func(e event) bool { return (e.k == "tc" || e.k == "tr" || e.k == "bs") && e.a == k })
+	}
+	group("W:", func(e event) bool { return e.k == "rs" || e.k == "w" || e.k == "cm" || e.k == "d" })
 
 	return strings.Join(parts, "|")
 }
@@ -757,15 +828,16 @@ func emit(r *hx.Run, sub uint64, res result) (failed bool) {
 		r.Line("end", "reject "+end)
 	}
 	switch res.c.kind {
-	case "window", "window-block", "window-dup":
+	case "window", "window-block", "window-dup", "two-stops":
 		// the same forced schedule exists as a Lean witness; per participant the model's trace must be this one
-		r.Line(fmt.Sprintf("model %s q=%d p=%d", res.c.kind, res.c.q, res.c.p), projections(res.ev, res.c.p))
+		r.Line(fmt.Sprintf("model %s q=%d p=%d", res.c.kind, res.c.q, res.c.p), projections(res.ev, res.c.p, max(1, res.c.ns)))
 	}
 	r.Count("kind:" + res.c.kind)
 	r.Count(fmt.Sprintf("q:%d", res.c.q))
 	r.Count(fmt.Sprintf("b:%d", res.c.b))
 	r.Count(fmt.Sprintf("t:%dms", res.c.t))
 	r.Count(fmt.Sprintf("producers:%d", res.c.p))
+	r.Count(fmt.Sprintf("stop-callers:%d", max(1, res.c.ns)))
 	verdict := "accept"
 	if end != "" {
 		verdict = "reject:" + end
@@ -878,7 +950,7 @@ func main() {
 	r := hx.Start()
 	r.MaxSamples = 2
 	r.Rule = "forced schedules (Stop right after the first Enqueue; producers parked at the verif yield point or inside BatchWriteScheduled while Stop runs) and stress runs " +
-		"(1-4 producers over 1-4 objects, Flush callers, Stop racing the producers, queue/batch sizes 1..4, time-outs 1..50 ms); " +
+		"(1-4 producers over 1-4 objects, Flush callers, 1-3 concurrent Stop callers racing the producers, queue/batch sizes 1..4, time-outs 1..50 ms); " +
 		"a run is non-trivial when Stop was invoked and at least one object went through BatchWrite, commit and BatchWriteDone; distinct = distinct event-kind sequences"
 	if lines := r.ReplayLines(); lines != nil {
 		for _, l := range lines {
@@ -917,6 +989,10 @@ func main() {
 		_, s = r.Rng.Fork()
 		forced = append(forced, cfg{kind: "window-dup", q: 1 + i%4, b: 1 + (i/4)%4, t: timeouts[i%3], p: 2, o: 1, n: 1, seed: s})
 	}
+	for i := 0; i < 12*r.Scale; i++ {
+		_, s := r.Rng.Fork()
+		forced = append(forced, cfg{kind: "two-stops", q: 1 + i%4, b: 1 + (i/4)%4, t: timeouts[i%3], p: 1, o: 1, n: 1, ns: 2, seed: s})
+	}
 	for q := 1; q <= 2; q++ {
 		_, s := r.Rng.Fork()
 		forced = append(forced, cfg{kind: "window-block", q: q, b: 1, t: 1, p: q + 1, o: q + 1, n: 1, seed: s})
@@ -937,6 +1013,10 @@ func main() {
 		c.stop = rng.Intn(c.p*c.n + 1)
 		if rng.Chance(1, 3) {
 			c.hy = rng.Range(50, 600)
+		}
+		c.ns = 1
+		if rng.Chance(1, 2) {
+			c.ns = rng.Range(2, 3)
 		}
 		if c.t >= 20 && rng.Chance(2, 3) {
 			c.t = hx.Pick(rng, timeouts[:4])
